@@ -86,6 +86,19 @@ package httpserver
 //	                                      while an older generation gives that answer (or has seen the (host,method,path), this one has not)
 //	C12.reload.overlap-neither-generation request overlapped a reload, answer is that of no generation
 //	C12.body-limit                        413 where the cache-less server routes, or the reverse, inside one generation
+//	C12.key-from-rewritten-path           answered by the entry that rewrote an EARLIER request (same host and method) to the path this request
+//	                                      asks for literally; no earlier request of the generation for this (host,method,path) was answered so
+//	C12.panic-in-cached-mux               the cached mux panicked while the cache-less one answered
+//
+// REWRITTEN PATHS (added): requests go through mux.ServeHTTP -> serveHTTP, which
+// applies rewriteTarget to the request object after search(). Half of the
+// rewrite targets lead to a path that clients also request literally (/x ->
+// /y, prefix /x -> /y, ^/x/(.*)$ -> /$1 ...), and request sequences contain
+// "siblings" (host and method of an earlier request, another path), so the
+// rewritten path of one cacheable request coincides with the literal path of
+// another request that the rules route elsewhere. Goroutines started by mux.go
+// (none on the unchanged tree) are gated and scheduled by the simulator
+// (check.json go_gates).
 //
 // Request bodies (added): requests may carry a body (Content-Length or
 // chunked); entries and the server may set clientMaxBodySize (-1, small
@@ -114,6 +127,7 @@ import (
 	"net/http/httptest"
 	"net/url"
 	"regexp"
+	"runtime/debug"
 	"sort"
 	"strings"
 	"testing"
@@ -226,6 +240,8 @@ var (
 	c12IPs     = []string{"198.51.100.1", "198.51.100.2", "203.0.113.7", "203.0.113.8"}
 	c12IPEnts  = []string{"198.51.100.1", "198.51.100.2", "203.0.113.7", "203.0.113.8", "198.51.100.0/24"}
 	c12ReqPath = []string{"/x", "/x/y", "/y", "/xy"}
+	// what the in-alphabet rewrite targets can also produce
+	c12ReqPathX = []string{"/y/y", "/yy", "/x/x", "/x/"}
 )
 
 func c12Subset(rng *sim.Rand, from []string, lo, hi int) []string {
@@ -271,28 +287,70 @@ func c12GenHeaders(rng *sim.Rand) []c12Hdr {
 	return out
 }
 
+// c12SetRewrite gives an entry (that has a path condition) a rewriteTarget:
+// either one that leads out of the request alphabet ("/e"+backend ...) or, in
+// half of the cases, one whose result is itself a path that clients request
+// literally (/x -> /y, prefix /x -> /y, ^/x/(.*)$ -> /$1 ...), so that the
+// rewritten path of one request coincides with the literal path of another.
+func c12SetRewrite(rng *sim.Rand, p *c12Path, tag string) {
+	inAlphabet := rng.Bool(0.5)
+	switch {
+	case p.Path != "":
+		p.Rewrite = "/" + tag + p.Backend
+		if inAlphabet {
+			opts := []string{}
+			for _, t := range []string{"/x", "/y", "/x/y", "/xy"} {
+				if t != p.Path {
+					opts = append(opts, t)
+				}
+			}
+			p.Rewrite = opts[rng.Intn(len(opts))]
+		}
+	case p.Prefix == "/":
+		p.Rewrite = "/" + tag + p.Backend
+		if inAlphabet {
+			p.Rewrite = "/x/" // /y -> /x/y, /x -> /x/x
+		}
+	case p.Prefix != "":
+		p.Rewrite = "/" + tag + p.Backend
+		if inAlphabet {
+			p.Rewrite = rng.PickStr("/y", "/y", "/x/y") // /x -> /y, /x/y -> /y/y, /xy -> /yy
+		}
+	case p.Regexp == "^/x/(.*)$":
+		p.Rewrite = "/" + tag + p.Backend + "/$1"
+		if inAlphabet {
+			p.Rewrite = rng.PickStr("/$1", "/$1", "/x$1") // /x/y -> /y, /xy
+		}
+	case p.Regexp != "":
+		p.Rewrite = "/" + tag + p.Backend + "/$1"
+		if inAlphabet {
+			p.Rewrite = rng.PickStr("/x/$1", "/$1y", "/y") // /y -> /x/y, /x -> /xy ...
+		}
+	}
+}
+
 func c12GenPath(rng *sim.Rand, backend string, pIPF, pHdr float64) c12Path {
 	p := c12Path{Backend: backend, Methods: []string{}, Headers: []c12Hdr{}}
 	switch rng.Intn(8) {
 	case 0, 1:
 		p.Path = rng.PickStr("/x", "/y", "/x/y")
-		if rng.Bool(0.3) {
-			p.Rewrite = "/e" + backend
+		if rng.Bool(0.35) {
+			c12SetRewrite(rng, &p, "e")
 		}
 	case 2, 3:
 		p.Prefix = rng.PickStr("/x", "/x", "/")
-		if rng.Bool(0.3) {
-			p.Rewrite = "/p" + backend
+		if rng.Bool(0.35) {
+			c12SetRewrite(rng, &p, "p")
 		}
 	case 4:
 		p.Regexp = "^/x/(.*)$"
 		if rng.Bool(0.4) {
-			p.Rewrite = "/r" + backend + "/$1"
+			c12SetRewrite(rng, &p, "r")
 		}
 	case 5:
 		p.Regexp = "^/(x|y)$"
 		if rng.Bool(0.4) {
-			p.Rewrite = "/r" + backend + "/$1"
+			c12SetRewrite(rng, &p, "r")
 		}
 	default:
 		// no path condition: matches every path
@@ -517,7 +575,7 @@ func c12NextSpec(rng *sim.Rand, prev *c12SpecD, backend func() string, pIPF, pHd
 				case p.Rewrite != "" && rng.Bool(0.5):
 					p.Rewrite = ""
 				default:
-					p.Rewrite = "/n" + p.Backend
+					c12SetRewrite(rng, p, "n")
 				}
 			case 6: // method list
 				if len(p.Methods) > 0 && rng.Bool(0.4) {
@@ -686,6 +744,7 @@ func c12Gen(rng *sim.Rand, tier string) interface{} {
 	pRepeat := []float64{0.3, 0.6, 0.8}[rng.Intn(3)]
 	pHold := []float64{0, 0.2, 0.6}[rng.Intn(3)]
 	pNear := []float64{0, 0.15, 0.15, 0.4}[rng.Intn(4)]
+	pSib := []float64{0, 0.15, 0.3}[rng.Intn(3)]
 	// requests are dealt to the phases in order
 	perPhase := make([]int, nPhase)
 	for i := 0; i < total; i++ {
@@ -717,6 +776,15 @@ func c12Gen(rng *sim.Rand, tier string) interface{} {
 				q.Host, q.Method, q.Path = c12NearVariant(rng, e.Host, e.Method, e.Path)
 				if rng.Bool(0.25) {
 					q.Host, q.Method, q.Path = c12NearVariant(rng, q.Host, q.Method, q.Path)
+				}
+			case len(all) > 0 && rng.Bool(pSib):
+				// host and method of an earlier request, another path (e.g. the path
+				// the earlier request is rewritten to)
+				e := all[rng.Intn(len(all))]
+				q.Host, q.Method = e.Host, e.Method
+				q.Path = c12ReqPath[rng.Intn(len(c12ReqPath))]
+				if rng.Bool(0.2) {
+					q.Path = c12ReqPathX[rng.Intn(len(c12ReqPathX))]
 				}
 			case len(all) > 0 && rng.Bool(pRepeat):
 				e := all[rng.Intn(len(all))]
@@ -1253,10 +1321,43 @@ type c12Out struct {
 }
 
 func (o c12Out) String() string {
+	if o.Status < 0 {
+		return "panic(no answer)"
+	}
 	if o.Backend != "" {
 		return fmt.Sprintf("%d/%s%s", o.Status, o.Backend, o.Path)
 	}
 	return fmt.Sprintf("%d", o.Status)
+}
+
+// c12ShortStack keeps the function names of the frames between the panic and
+// the harness (no goroutine ids, addresses or arguments: the text must replay).
+func c12ShortStack(st []byte) string {
+	var fns []string
+	seenPanic := false
+	for _, l := range strings.Split(string(st), "\n") {
+		if l == "" || l[0] == '\t' || strings.HasPrefix(l, "goroutine ") {
+			continue
+		}
+		if i := strings.LastIndexByte(l, '('); i > 0 {
+			l = l[:i]
+		}
+		if strings.HasPrefix(l, "panic") {
+			seenPanic = true
+			continue
+		}
+		if !seenPanic {
+			continue
+		}
+		if strings.Contains(l, ".c12Exec") {
+			break
+		}
+		fns = append(fns, l)
+		if len(fns) >= 8 {
+			break
+		}
+	}
+	return strings.Join(fns, " <- ")
 }
 
 func c12OutOf(rec *httptest.ResponseRecorder) c12Out {
@@ -1403,12 +1504,14 @@ var c12CodePath = map[string]string{
 	"C12.ipfilter-bypass": "mux.go search(): on a hit only r.path.ipFilterChain is consulted (l.545-551) = server + the route's own rule + the path; on a miss EVERY host-matching rule visited before the route answers 403 if its own filter denies (l.559-565)",
 	"C12.key-collision": "mux.go getRouteFromCache/putRouteToCache (l.149, l.159): key = stringtool.Cat(host, method, path) without separators, so two different (host, method, path) triples share one entry",
 	"C12.reload":        "mux.go reload(): every muxInstance must start with a route cache of its own (lru.NewARC, filled only by its own search()); a cache object, *route, *MuxPath or ipfilter that is reachable from the instance published by m.inst.Store(inst) but was built for or filled under an earlier spec serves the earlier generation's answer",
+	"C12.key-from-rewritten-path": "mux.go putRouteToCache()/getRouteFromCache(): the key must be built from host, method and path as they were when search() looked the request up; serveHTTP() applies route.path.rewrite(req) to the SAME request object afterwards, so a key built later (or a request object kept and read later) names the rewritten path",
+	"C12.panic-in-cached-mux":     "mux.go serveHTTP()/search() on the cached mux",
 	"C12.body-limit":    "mux.go serveHTTP(): maxBodySize := route.path.clientMaxBodySize, else mi.spec.ClientMaxBodySize - taken from the *MuxPath the (cached) route points to",
 	"C12.other":         "cache-hit/miss handling in mux.go search() / key construction (getRouteFromCache, putRouteToCache)",
 }
 
 func c12PathCodeKey(class string) string {
-	for _, k := range []string{"C12.header-shadow", "C12.cached-status-over-403", "C12.ipfilter-bypass", "C12.key-collision", "C12.reload", "C12.body-limit"} {
+	for _, k := range []string{"C12.header-shadow", "C12.cached-status-over-403", "C12.ipfilter-bypass", "C12.key-collision", "C12.key-from-rewritten-path", "C12.panic-in-cached-mux", "C12.reload", "C12.body-limit"} {
 		if strings.HasPrefix(class, k) {
 			return k
 		}
@@ -1736,12 +1839,24 @@ func c12Exec(r *sim.Run, sci interface{}) {
 			}
 			insideReload := begun > done
 			recC := httptest.NewRecorder()
-			mC.ServeHTTP(recC, c12HTTPReq(q, id))
+			panicked := ""
+			func() {
+				// net/http would recover this and close the connection: no answer at all
+				defer func() {
+					if e := recover(); e != nil {
+						panicked = fmt.Sprintf("%v at %s", e, c12ShortStack(debug.Stack()))
+					}
+				}()
+				mC.ServeHTTP(recC, c12HTTPReq(q, id))
+			}()
 			hi := begun // reloads begun by the time the answer is complete
 			insideReload = insideReload && begun > done && hi == lo+1
 			f := stamp(id) // not routed to a handler: still the same atomic section as its search
 			inflight--
 			got := c12OutOf(recC)
+			if panicked != "" {
+				got = c12Out{Status: -1} // "connection closed without an answer"
+			}
 			// history of the same generation (the route cache of a generation starts empty)
 			var prior []c12Hist
 			crossGen, staleSensitive := false, false
@@ -1817,6 +1932,24 @@ func c12Exec(r *sim.Run, sci interface{}) {
 						if prior[i].exp != exp {
 							nearDiff = true
 						}
+					}
+				}
+			}
+			// an earlier request of this generation (same host and method, other
+			// path) was routed and REWRITTEN to the path this request asks for literally
+			var rewPrec *c12Hist
+			for i := range prior {
+				h := &prior[i]
+				if h.q.Host == q.Host && h.q.Method == q.Method && h.q.dec != q.dec && h.exp.Backend != "" && h.exp.Path == q.dec {
+					rewPrec = h
+				}
+			}
+			if rewPrec != nil {
+				r.Probe("c12.req.literal_path_equals_rewritten_path_of_earlier_request")
+				if rewPrec.exp.Backend != exp.Backend {
+					r.Probe("c12.req.literal_path_equals_rewritten_path_of_earlier_request_routed_elsewhere")
+					if !rewPrec.why.ViaHeader {
+						r.Probe("c12.req.literal_path_equals_rewritten_path_of_earlier_cacheable_request_routed_elsewhere")
 					}
 				}
 			}
@@ -1913,6 +2046,16 @@ func c12Exec(r *sim.Run, sci interface{}) {
 			}
 			class, facts := "", ""
 			switch {
+			case rewPrec != nil && !explainedInGen && (panicked != "" || got.Backend == rewPrec.exp.Backend || (got.Status == 503 && missing[rewPrec.exp.Backend])):
+				// served by the entry that REWROTE an earlier request to this path, and no earlier
+				// request of the generation with this very (host,method,path) was answered so
+				class = "C12.key-from-rewritten-path"
+				facts = fmt.Sprintf("earlier request {%v} was routed to %s and rewritten to %s, the literal path of this request; this request is answered by that entry (%v)", rewPrec.q, rewPrec.exp.Backend, rewPrec.exp.Path, got)
+				if panicked != "" {
+					facts += "; serving it panicked: " + panicked
+				}
+			case panicked != "":
+				class, facts = "C12.panic-in-cached-mux", "the cached mux panicked (net/http closes the connection without an answer): "+panicked
 			case hi > lo && staleGen >= 0:
 				class, facts = "C12.reload.stale-generation", fmt.Sprintf("the request overlapped the reload(s) to generation(s) %d..%d; %s", lo+1, hi, staleFacts())
 			case hi > lo && explainedInGen:
